@@ -32,6 +32,7 @@ type cell struct {
 	ty      string // loops mode: Coq type when it is not Z / bytes (list cells, sponge state)
 	pver    int    // loops mode, list cells: version of the slots (bumped by a pointer store l[i] = p)
 	moved   bool   // its pointer was stored into a slice slot: any later write through it would also change the slot
+	via     []*val // arguments of the call that returned it, into which it may point (call2.go: shared)
 	shares  *cell  // big.Int value copied from this cell by a struct copy (PrivKeyScalar(*s)): the limbs are shared
 }
 
@@ -48,6 +49,7 @@ type object struct {
 	owner  *object
 	hint   string
 	pw     bool   // whole is (a projection of) the incoming value of parameter pidx
+	via    []*val // as cell.via
 	ro     string // non-empty: the field integers may be shared with an argument of the call that returned it (reason)
 }
 
